@@ -173,6 +173,11 @@ class World:
                 self.callback_error = self.callback_error or repr(e)
             raise
         self.stack.pop()
+        if getattr(msg, "_c20", False) and not nested and topic in self.msgobj and msg is self.msgobj[topic]:
+            # like the real nodes (e.g. AttitudeEstimator.msg_est_status) the publisher keeps ONE message object and
+            # fills in fields for the NEXT publication ahead of time: a staged value that was never published must
+            # not show up anywhere (a logger that keeps a reference instead of a copy would log it)
+            msg.data["time"] = -float(mid) - 0.5
         if line.get("a") == "PublishBegin" and getattr(self, "_begin_ty", None) is not None \
                 and topic in self.ptype and self._begin_ty != self.ptype[topic]:
             self.problem("publish/wrong-type/accepted", f"a message of type {self._begin_ty} was accepted on topic {topic} of type {self.ptype[topic]}")
